@@ -15,11 +15,17 @@ EXPLANATION = ("(enc) real dsw.encode on all arc subsets x starts x messages (x 
                "live arc / table rank; fast mode 2 bits MSB-first at 4-way, 1 bit at 2-way vertices).  (dec) real dsw.decode "
                "on an arbitrary symbolic walk: output must be the digit value rendered big-endian when it fits")
 STUBS = [stubs.STUB_NOTE, "Monitor.__call__ has an empty body"]
-ASSUMPTIONS = ["(enc) paths where encode raises its dead-end / out-degree-3 ValueError or exceeds the step budget are outside the claim",
+ASSUMPTIONS = ["(step) lifting the one-step equality to whole strands is induction over the loop iterations (written); the normal-mode loop state is exactly (quotient, vertex)",
+               "(enc) paths where encode raises its dead-end / out-degree-3 ValueError or exceeds the step budget are outside the claim",
                "(dec) the input string is assumed to be a walk of the graph (independent z3 unfolding); fast mode: graphs without "
                "out-degree 3 and walks carrying at most L bits",
                "fast mode, odd number of bits left at a 4-way vertex: the missing bit reads as 0 (C04: 'bits carried total L or L+1')"]
-make_loader = coding.make_loader
+def make_loader(cfg):
+    if cfg.get("side") == "step":
+        return coding.step_loader(coding.STEP_HOLDER)
+    return coding.make_loader(cfg)
+
+
 BUDGET_S = {"quick": 1500, "thorough": 10000}
 
 
@@ -32,8 +38,12 @@ def jobs(tier):
         add(side="enc", k=1, L=3, fast=False, table=False, vt=0, max_steps=4)
         add(side="enc", k=1, L=3, fast=True, table=False, vt=0, max_steps=4)
         add(side="enc", k=1, L=2, fast=False, table=True, vt=0, max_steps=3)
-        add(side="enc", k=1, L=2, fast=True, table=True, vt=0, max_steps=3)
+        add(side="enc", k=1, L=3, fast=True, table=True, vt=0, max_steps=3)
+        add(side="enc", k=1, L=1, fast=True, table=True, vt=0, max_steps=2)
         add(side="enc", k=2, L=2, fast=False, table=False, vt=0, max_steps=2)
+        add(side="step", k=1, table=False)
+        add(side="step", k=1, table=True)
+        add(side="step", k=2, table=False)
         add(side="dec", k=1, L=4, n=2, fast=False, table=False)
         add(side="dec", k=1, L=4, n=2, fast=False, table=True)
         add(side="dec", k=1, L=4, n=2, fast=True, table=False)
@@ -49,6 +59,10 @@ def jobs(tier):
             add(side="enc", k=2, L=L, fast=False, table=False, vt=0, max_steps=L)
             add(side="enc", k=2, L=L, fast=True, table=False, vt=0, max_steps=L)
         add(side="enc", k=2, L=2, fast=False, table=True, vt=0, max_steps=2)
+        add(side="step", k=1, table=False)
+        add(side="step", k=1, table=True)
+        add(side="step", k=2, table=False)
+        add(side="step", k=2, table=True)
         for n in (1, 2, 3):
             for fast in (False, True):
                 for table in (False, True):
@@ -61,7 +75,9 @@ def jobs(tier):
 
 def bounds(tier):
     js = jobs(tier)
-    return {"orders_k": sorted(set(j["k"] for j in js)), "max_message_bits": max(j["L"] for j in js),
+    return {"orders_k": sorted(set(j["k"] for j in js)), "max_message_bits": max(j.get("L", 0) for j in js),
+            "inductive step (normal mode)": "one loop iteration of the real encode from ANY state (message value V >= 1 unbounded, any vertex, any graph/table of order <= 2): "
+                                            "emitted arc = reference arc for digit V mod r, V' = V div r, vertex' = successor -- lifts the reference equality to messages of every length",
             "max_walk_length_decode": max(j.get("n", 0) for j in js),
             "graphs": "all arc subsets per order (symbolic)", "tables": "all permutation tables where table=True",
             "outside": "k >= 3, longer messages / walks"}
@@ -70,7 +86,51 @@ def bounds(tier):
 def body(e, L, cfg):
     if cfg["side"] == "enc":
         return body_enc(e, L, cfg)
+    if cfg["side"] == "step":
+        return body_step(e, L, cfg)
     return body_dec(e, L, cfg)
+
+
+def body_step(e, L, cfg):
+    """inductive step of the reference equality (normal mode), message value unbounded."""
+    k = cfg["k"]
+    g = oracles.GraphU(k)
+    start = z3.Int("start")
+    tab = oracles.TableU(k) if cfg.get("table") else None
+    e.assume(z3.And(start >= 0, start < g.N))
+    if tab is not None:
+        e.assume(tab.constraints())
+    kind, info, V = coding.run_one_step(e, L, g, start, tab)
+    deg = g.sel(start, lambda u: g.deg(u))
+
+    def cex(m):
+        v = m.eval(V, model_completion=True).as_long()
+        bits = [int(b) for b in bin(v)[2:]]
+        return {"kind": "coding", "acc": g.model_rows(m), "bits": bits, "start": m.eval(start, model_completion=True).as_long(), "fast": False, "vt": 0,
+                "table": tab.model_rows(m) if tab is not None else None, "check": "reference"}
+    if kind == "dead":
+        r, m = e.check(deg >= 1)
+        if r == "sat":
+            return {"status": "viol", "why": "dead end reported at a vertex with arcs", "cex": cex(m)}
+        return {"status": "ok", "sample": {"step": "dead end <=> out-degree 0"}}
+    if kind == "exc":
+        r, m = e.check()
+        return {"status": "viol", "why": info, "cex": cex(m)}
+    col, Vn, vn = info
+    only = g.sel(start, lambda u: z3.If(g.arc[u][0], 0, z3.If(g.arc[u][1], 1, z3.If(g.arc[u][2], 2, 3))))
+    digit = z3.If(deg == 2, V % 2, z3.If(deg == 3, V % 3, z3.If(deg == 4, V % 4, 0)))
+    refcol = z3.If(deg == 1, only, oracles.rank_live(g, tab, start, digit))
+    refV = z3.If(deg == 2, V / 2, z3.If(deg == 3, V / 3, z3.If(deg == 4, V / 4, V)))
+    conj = [deg >= 1, col == refcol, Vn == refV]
+    if vn is not None:
+        conj.append(vn == (start * 4 + refcol) % (4 ** k))
+    r, m = e.check(z3.Not(z3.And(conj)))
+    if r == "sat":
+        return {"status": "viol", "why": "one encode step differs from the reference step (digit = V mod r, V' = V div r)", "cex": cex(m)}
+    if r != "unsat":
+        return {"status": "inconclusive", "why": "solver unknown"}
+    mm = e._ensure_model()
+    return {"status": "ok", "sample": {"step": "one iteration from an arbitrary state", "V": str(mm.eval(V, model_completion=True)), "start": mm.eval(start, model_completion=True).as_long()}}
 
 
 def body_enc(e, L, cfg):
